@@ -520,15 +520,21 @@ def check_reject(sim):
         fmt = r.get("NodeFormat", "")
         if fmt not in KNOWN:
             why = "unknown node format %r" % fmt
-        elif r.get("Link") is not None and sim.opts.get("cache", "none") == "none":
+        elif r.get("Link") is not None and (sim.opts.get("cache", "none") == "none" or store_id != 3):
             # with a node cache the top node may legitimately be served from the cache without being read
-            # and decoded again, so expectations about the stored bytes apply to cache-less loads only
+            # and decoded again, so expectations about DAMAGED stored bytes apply to cache-less loads only;
+            # an intact top node (bytes are damaged in store 3 only, and cache entries are per store) is the same
+            # node whether it comes from the store or from the cache, and the root record's height / branch
+            # factor / format are checked against it either way
             link = r["Link"]
             b = topb
             if b is None:
                 why = "top node missing from the store"
             else:
-                why = _node_mismatch(b, fmt or "v1marshaler", kind, r["Height"], r["BranchFactor"])
+                # a warm cache hands out the decoded node: nothing is decoded again, so with a cache the node is
+                # judged in the format it was written in (a root naming the other known format then loads)
+                use = (fmt or "v1marshaler") if sim.opts.get("cache", "none") == "none" else sim.fmt
+                why = _node_mismatch(b, use, kind, r["Height"], r["BranchFactor"])
         if why and outcome == "ok":
             sim.fail("reject", idx, "LoadMast accepted a root it must reject: %s" % why, why=why)
         sim.facts.setdefault("reject_cases", []).append((idx, why, outcome))
